@@ -25,6 +25,9 @@ const (
 	nNew = "NewTileXYZ"
 	nSeq = "TileSequence"
 	nPair = "TilePair"
+	nObj  = "TileObjectSequence"
+	nChk  = "VerifExtendedSpatialIDCheckZoom"
+	nGrid = "CheckZoomGrid"
 )
 
 // ---------------------------------------------------------------- invokers
@@ -167,6 +170,89 @@ func fnPair() *run.Fn {
 	return &run.Fn{Name: nPair, Invoke: func(a []w.Val) w.Val {
 		E, O, outV := w.AsInt(a[1]), w.AsInt(a[2]), w.AsInt(a[3])
 		return w.L(call(false, a[0], E, O, outV), call(true, a[0], E, O, outV))
+	}}
+}
+
+func getters(t *object.TileXYZ) []w.Val {
+	return []w.Val{w.I(t.HZoom()), w.I(t.X()), w.I(t.Y()), w.I(t.VZoom()), w.I(t.Z())}
+}
+
+// TileObjectSequence: one real *TileXYZ (zero value or NewTileXYZ) driven through a sequence of setter calls [code; value]
+// (0 SetHZoom, 1 SetX, 2 SetY, 3 SetVZoom, 4 SetZ); after every call the error flag and the five getters are recorded; finally the object
+// itself (twice the same pointer when alias) is converted by ConvertTileXYZsToExtendedSpatialIDs.
+// observed [constructor getters; trace; conversion result], or [E nil] when the constructor refuses.
+func fnObj() *run.Fn {
+	return &run.Fn{Name: nObj, Invoke: func(a []w.Val) w.Val {
+		init := w.AsInts(a[0])
+		var t *object.TileXYZ
+		if len(init) == 0 {
+			t = &object.TileXYZ{}
+		} else {
+			var err error
+			t, err = object.NewTileXYZ(init[0], init[1], init[2], init[3], init[4])
+			if err != nil || t == nil {
+				return w.L(w.Err{V: w.Nil{}})
+			}
+		}
+		ctor := w.List(getters(t))
+		trace := w.List{}
+		for _, ov := range w.AsList(a[1]) {
+			o := w.AsInts(ov)
+			var err error
+			switch o[0] {
+			case 0:
+				err = t.SetHZoom(o[1])
+			case 1:
+				t.SetX(o[1])
+			case 2:
+				t.SetY(o[1])
+			case 3:
+				err = t.SetVZoom(o[1])
+			case 4:
+				t.SetZ(o[1])
+			default:
+				panic("unknown setter code")
+			}
+			trace = append(trace, w.List(append([]w.Val{w.B(err != nil)}, getters(t)...)))
+		}
+		E, O, outV := w.AsInt(a[3]), w.AsInt(a[4]), w.AsInt(a[5])
+		req := []*object.TileXYZ{t}
+		raw := [][]int64{{t.HZoom(), t.X(), t.Y(), t.VZoom(), t.Z()}}
+		if w.AsBool(a[2]) {
+			req = append(req, t)
+			raw = append(raw, raw[0])
+		}
+		var conv w.Val
+		if estimate(false, raw, E, outV) > guardCap(false) {
+			conv = w.S(sizeMarker)
+		} else {
+			conv = eidsVal(transform.ConvertTileXYZsToExtendedSpatialIDs(req, E, O, outV))
+		}
+		return w.L(ctor, trace, conv)
+	}}
+}
+
+// the zoom window of the conversions through the verif hook
+func fnChk() *run.Fn {
+	return &run.Fn{Name: nChk, Invoke: func(a []w.Val) w.Val {
+		return w.B(transform.VerifExtendedSpatialIDCheckZoom(w.AsInt(a[0]), w.AsInt(a[1])))
+	}}
+}
+
+// ... on the whole grid lo..hi x lo..hi in one call (hZoom outer, vZoom inner)
+func fnGrid() *run.Fn {
+	return &run.Fn{Name: nGrid, Invoke: func(a []w.Val) w.Val {
+		lo, hi := w.AsInt(a[0]), w.AsInt(a[1])
+		if hi-lo > 200 || hi < lo {
+			panic("grid too large")
+		}
+		out := w.List{}
+		for h := lo; h <= hi; h++ {
+			for v := lo; v <= hi; v++ {
+				out = append(out, w.B(transform.VerifExtendedSpatialIDCheckZoom(h, v)))
+			}
+		}
+		return out
 	}}
 }
 
@@ -766,6 +852,58 @@ func genSequence(g *Gen) ([]w.Val, []string) {
 	return []w.Val{calls}, append(tags, "sequence", Tag("calls=%d", len(calls)))
 }
 
+// a TileXYZ object, a sequence of setter calls (valid and refused zooms, any x / y / z), then the conversion of the object
+func genObjSequence(g *Gen) ([]w.Val, []string) {
+	p, tags := genParams(g, false)
+	t, zt := genTile(g, p, 6)
+	tags = append(tags, zt)
+	init := w.List{}
+	start := tile{}
+	mode := "obj:zero-value"
+	if g.Chance(0.6) {
+		mode = "obj:constructor"
+		start = tile{g.Zoom(), g.HIndex(5), g.Int63n(100) - 50, g.Zoom(), g.Int63n(64)}
+		if g.Chance(0.1) {
+			start[g.Pick(0, 3)] = g.Pick(-1, 36, -3, 64)
+			mode = "obj:constructor-refuses"
+		}
+		init = tileVal(start).(w.List)
+	}
+	// the setter calls: drive the object towards the target tile t in random order, with refused zooms, overwritten and repeated values in between
+	type op struct{ c, v int64 }
+	need := []op{{0, t[0]}, {1, t[1]}, {2, t[2]}, {3, t[3]}, {4, t[4]}}
+	g.R.Shuffle(len(need), func(i, j int) { need[i], need[j] = need[j], need[i] })
+	var ops []op
+	for _, o := range need {
+		for g.Chance(0.45) { // noise before the call that counts
+			switch g.Intn(5) {
+			case 0:
+				ops = append(ops, op{g.Pick(0, 3), g.Pick(-1, 36, 37, -36, 64, math.MinInt64, math.MaxInt64)}) // refused
+			case 1: // an accepted value of the field about to be set (overwritten by the call that counts)
+				if o.c == 0 || o.c == 3 {
+					ops = append(ops, op{o.c, g.Zoom()})
+				} else {
+					ops = append(ops, op{o.c, g.Int63n(1 << 20)})
+				}
+			case 2:
+				ops = append(ops, op{g.Pick(1, 2, 4), g.Pick(-1, 0, 1<<40, math.MaxInt64, math.MinInt64, g.Int63n(1000))})
+			case 3:
+				ops = append(ops, o) // the same call twice
+			default:
+				ops = append(ops, op{o.c, o.v + g.Pick(1, -1)})
+			}
+		}
+		if o.c == 0 || o.c == 3 || g.Chance(0.9) { // the zooms always end on the target (they bound the size of the result)
+			ops = append(ops, o)
+		}
+	}
+	ol := w.List{}
+	for _, o := range ops {
+		ol = append(ol, w.L(w.I(o.c), w.I(o.v)))
+	}
+	return []w.Val{init, ol, w.B(g.Chance(0.3)), w.I(p.E), w.I(p.O), w.I(p.outV)}, append(tags, mode, "object", Tag("setter-calls=%d", len(ops)))
+}
+
 func genNewTile(g *Gen) ([]w.Val, []string) {
 	zs := []int64{-1, -2, -3, -25, 0, 1, 25, 34, 35, 36, 37, 64, -36, 1 << 40, -(1 << 40)}
 	h, v := g.Zoom(), g.Zoom()
@@ -839,7 +977,7 @@ var fixed = []fixedReq{
 func init() {
 	Scale["C13"] = 1700
 	Registry["C13"] = func(r *run.Runner, g *Gen, n int) {
-		r.Register(fnConv(nExt, false), fnConv(nSp, true), fnNew(), fnSeq(), fnPair())
+		r.Register(fnConv(nExt, false), fnConv(nSp, true), fnNew(), fnSeq(), fnPair(), fnObj(), fnChk(), fnGrid())
 		if n == 0 {
 			return
 		}
@@ -861,6 +999,15 @@ func init() {
 			r.Run(run.Case{Prop: "C13", Fn: nPair, Args: argsOf(p, sts), Tags: []string{"fixed"}, Trivial: trivial(p, f.ts)})
 		}
 		r.Run(run.Case{Prop: "C13", Fn: nNew, Args: []w.Val{w.I(-3), w.I(0), w.I(0), w.I(-2), w.I(0)}, Tags: []string{"fixed"}})
+		// the zoom window of the conversions, exhaustively on -4..41 x -4..41 through the verif hook, and on int64 extremes
+		r.Run(run.Case{Prop: "C13", Fn: nGrid, Args: []w.Val{w.I(-4), w.I(41)}, Tags: []string{"fixed", "zoom-window-grid"}})
+		for _, pr := range [][2]int64{{0, 0}, {35, 35}, {36, 0}, {0, 36}, {-1, 35}, {35, -1}, {math.MinInt64, 0}, {0, math.MaxInt64}, {math.MaxInt64, math.MinInt64}, {1 << 32, 5}, {5, 1 << 32}} {
+			r.Run(run.Case{Prop: "C13", Fn: nChk, Args: []w.Val{w.I(pr[0]), w.I(pr[1])}, Tags: []string{"fixed", "zoom-window"}})
+		}
+		// a setter sequence on the zero value, then the conversion of that object
+		r.Run(run.Case{Prop: "C13", Fn: nObj, Tags: []string{"fixed", "object"}, Args: []w.Val{w.List{},
+			w.L(w.L(w.I(0), w.I(36)), w.L(w.I(0), w.I(20)), w.L(w.I(1), w.I(85263)), w.L(w.I(2), w.I(65423)), w.L(w.I(3), w.I(-1)), w.L(w.I(3), w.I(23)), w.L(w.I(4), w.I(0)), w.L(w.I(0), w.I(40))),
+			w.B(true), w.I(25), w.I(7), w.I(23)}})
 		for i := 0; i < n; i++ {
 			switch c := g.Intn(100); {
 			case c < 40:
@@ -872,9 +1019,12 @@ func init() {
 			case c < 84:
 				p, ts, tags := genRequest(g, true)
 				r.Run(run.Case{Prop: "C13", Fn: nPair, Args: argsOf(p, ts), Tags: append(tags, "pair"), Trivial: trivial(p, ts)})
-			case c < 95:
+			case c < 92:
 				a, tags := genSequence(g)
 				r.Run(run.Case{Prop: "C13", Fn: nSeq, Args: a, Tags: tags})
+			case c < 97:
+				a, tags := genObjSequence(g)
+				r.Run(run.Case{Prop: "C13", Fn: nObj, Args: a, Tags: tags})
 			default:
 				a, tags := genNewTile(g)
 				r.Run(run.Case{Prop: "C13", Fn: nNew, Args: a, Tags: tags})
